@@ -229,10 +229,7 @@ func labelCompound(c *Case, v *vh.Violation, gone func(*Case) bool) {
 		t.Input = k19StartRe.ReplaceAllString(t.Input, "<colgroup class=k19>")
 		add("K19")
 	}
-	if t.Registry == "real" && k30Re.MatchString(t.Input) {
-		t.Registry = "none"
-		add("K30")
-	}
+	// (K30, escapes that decode to </script> under the real JS minifier: repaired in /repo, the shape is judged like any other)
 	if marqueeRe.MatchString(t.Input) {
 		t.Input = marqueeRe.ReplaceAllString(t.Input, "${1}span")
 		add("K39")
